@@ -69,6 +69,24 @@ theorem reads_observe_store (store : Nat → Nat) (cond : Nat → Bool) (count :
   · obtain ⟨c, f', h⟩ := total _ (fun f k => ⟨_, h2 f k⟩) b f
     exact ⟨c, f', h, lowerBody_run store cond count _ b f c f' h T⟩
 
+/-- What the harness compares on every compiled program (`lir-read-sites`): the
+body lowered the way the source lowers read sites has, for every constant,
+exactly one store read (`Value::Constant`, which the LIR arm turns into one
+`ConstantAddress` of that constant) per read site of the source — no site
+shares the read of another one.  The hook counts the `ConstantAddress`
+instructions per constant in every real lowered body; the generator knows the
+number of read sites. -/
+theorem one_store_read_per_site (b : Body) (f k : Nat) :
+    (∀ c f', lowerBody RotoV.Gen.C14Read.mirReadNoFields b f = some (c, f') → c.storeReads k = b.sites k) ∧
+    (∀ c f', lowerBody RotoV.Gen.C14Read.mirReadFields b f = some (c, f') → c.storeReads k = b.sites k) :=
+  ⟨fun c f' h => lowerBody_storeReads _ k b f c f' h, fun c f' h => lowerBody_storeReads _ k b f c f' h⟩
+
+/-- … which a body with a shared read does not have -/
+example :
+    let code : Code := .add (.ite 0 (.site (.viaTemp 0 7)) (.lit 0)) (.site (.reuse 0))
+    let body : Body := .add (.ite 0 (.read 7) (.lit 0)) (.read 7)
+    code.storeReads 7 = 1 ∧ body.sites 7 = 2 := by decide
+
 /-- not vacuous: `(if c0 { K7 } else { 0 }) + K7` lowered with the second site
 re-using the temporary the first site assigned (a read remembered per function
 in lowering order) is worth `store 7` short on the path around the branch —
